@@ -110,7 +110,6 @@ class Prog:
     def __init__(self, case):
         self.case = case
         path, G, fmt, off, op = case
-        self.fd, self.real = io_fd()
         attrs = {}
         if path in ("var", "minarr"):
             attrs["minimumPacketSize"] = G
@@ -125,6 +124,11 @@ class Prog:
             self.locfmt = op[3]
         if self.locfmt is not None:
             attrs["lv"] = LocalVar(self.locfmt)
+        self.build(attrs)
+
+    def build(self, attrs):
+        """the XDP subclass of this case, instantiated and assembled"""
+        self.fd, self.real = io_fd()
         prog = self
 
         def program(e):
@@ -331,7 +335,10 @@ def amount_values(fmt, seed):
     return out
 
 
-def const_values(fmt, seed):
+POWERS = (7, 8, 15, 16, 31, 32, 63)
+
+
+def base_consts(fmt, seed):
     lo, hi = fmt_range(fmt)
     n = SIZE[letter(fmt)]
     pat = int.from_bytes(bytes(range(1, n + 1)), "big")
@@ -342,6 +349,40 @@ def const_values(fmt, seed):
         vs += [1 << (8 * n - 1)]
     vs.append(random.Random(seed * 41 + n).randint(lo, hi))
     return sorted(set(vs))
+
+
+def boundary_values(fmt):
+    """2^k - 1, 2^k, -2^k, -2^k - 1 for the powers of two at which some
+    encoding of a constant changes (sign bits of 1/2/4/8-byte quantities,
+    32-bit immediates that are sign-extended, ...), as far as the format's
+    range allows"""
+    lo, hi = fmt_range(fmt)
+    vs = set()
+    for k in POWERS:
+        for v in ((1 << k) - 1, 1 << k, -(1 << k), -(1 << k) - 1):
+            if lo <= v <= hi:
+                vs.add(v)
+    return vs
+
+
+def swapped_image(v, fmt):
+    """the number whose bytes in the format's width are those of v reversed"""
+    n = SIZE[letter(fmt)]
+    raw = (v & ((1 << (8 * n)) - 1)).to_bytes(n, "little")
+    return int.from_bytes(raw, "big", signed=signed(fmt))
+
+
+def extra_consts(fmt, seed):
+    """boundary constants beyond base_consts; for formats with a byte order
+    prefix also the values whose byte-swapped image is a boundary"""
+    vs = boundary_values(fmt)
+    if len(fmt) > 1:
+        vs |= {swapped_image(v, fmt) for v in vs}
+    return sorted(vs - set(base_consts(fmt, seed)))
+
+
+def const_values(fmt, seed):
+    return sorted(set(base_consts(fmt, seed)) | set(extra_consts(fmt, seed)))
 
 
 def operations(fmt, seed, quick):
@@ -599,6 +640,11 @@ def plan_for(case, seed, quick):
         vals = amount_values(fmt, seed)
     else:
         vals = [0]
+    if op[0] == "wc" and op[1] not in base_consts(fmt, seed):
+        # the additional boundary constants: every length once, the other
+        # contents only where the body certainly runs
+        return [(length, "pos", 0) for length in lengths(G)] + \
+            [(G + 1, "ff", 0), (1514, "ff", 0), (G + 1, "seed", 0)]
     plan = []
     for length in lengths(G):
         for cid in ("pos", "ff"):
@@ -612,6 +658,350 @@ def plan_for(case, seed, quick):
     return plan
 
 
+# ------------------------------------------- several guards in one program
+GOPTS = ("anon", "as", "else")
+SYM = {"gt": ">", "ge": ">=", "lt": "<", "le": "<="}
+TAG = 0xA0
+GUARD_MIN = 20
+GCONTENTS = ["pos", "seed"]
+MAXBLOCKS = (IOSIZE - OUT) // 8
+
+
+def annotate(case):
+    """number the bodies of a guard program in program order -> (id of the
+    minimumPacketSize body or None, top-level nodes, names of the blocks);
+    a node [op, G, opt, body nodes, Else nodes] becomes (op, G, opt, body id,
+    body nodes, Else id or None, Else nodes)"""
+    names = []
+    guards = [0]
+
+    def new(name):
+        names.append(name)
+        return len(names) - 1
+
+    def node(t):
+        op, G, opt, body, els = t
+        if op not in CMP or opt not in GOPTS or (els and opt != "else"):
+            raise core.Internal(f"malformed guard node {t!r}")
+        guards[0] += 1
+        me = f"guard {guards[0]} (packetSize {SYM[op]} {G})"
+        bid = new("with-body of " + me)
+        body = [node(c) for c in body]
+        eid = new("Else of " + me) if opt == "else" else None
+        return (op, G, opt, bid, body, eid, [node(c) for c in els])
+
+    mid = None
+    if case["min"] is not None:
+        mid = new(f"body under minimumPacketSize {case['min']}")
+    top = [node(t) for t in case["top"]]
+    if len(names) > MAXBLOCKS:
+        raise core.Internal(f"too many blocks in {case!r}")
+    return mid, top, names
+
+
+def guard_values(case):
+    vs = set() if case["min"] is None else {case["min"]}
+
+    def walk(nodes):
+        for op, G, opt, body, els in nodes:
+            vs.add(G)
+            walk(body)
+            walk(els)
+    walk(case["top"])
+    return sorted(vs)
+
+
+def guard_lengths(case):
+    ls = {1, 14, 1514}
+    for g in guard_values(case):
+        ls |= set(range(g - 2, g + 3))
+    return sorted(ls)
+
+
+def shape_of(nodes):
+    return "".join("g(" + shape_of(body) + ")" + (
+        "e(" + shape_of(els) + ")" if opt == "else" else "")
+        for op, G, opt, body, els in nodes)
+
+
+class GuardProg(Prog):
+    """one program with several packet-size guards: case = dict(min=M or None,
+    top=[node...]), node = [op, G, opt, [nodes in the with-body], [nodes in
+    the Else body]], opt = 'anon' (``with e.packetSize > G:``), 'as'
+    (``... as p:``) or 'else' (``... as p:`` followed by ``with p.Else:``).
+    Every with-body and Else body first stores MARK into its own slot of the
+    output area and then, if the guards around it promise any packet bytes,
+    a tag into the last promised byte - through the nearest enclosing ``p``
+    (or the arrays minimumPacketSize provides), else through a PacketVar."""
+
+    def __init__(self, case):
+        self.case = case
+        self.mid, self.top, self.names = annotate(case)
+        self.access = {}        # block id -> (offset, tag) the block writes
+        attrs = {}
+        if case["min"] is not None:
+            attrs["minimumPacketSize"] = case["min"]
+        for v in guard_values(case):
+            attrs[f"pv{v - 1}"] = PacketVar(v - 1, "B")
+        self.build(attrs)
+
+    def emit(self, e):
+        if self.mid is not None:
+            self.block(e, self.mid, self.case["min"], e, self.top)
+            return
+        for t in self.top:
+            self.node(e, t, 0, None)
+        self.raw(0xb7, 0, 0, 0, 2)
+        self.raw(0x95, 0, 0, 0, 0)
+
+    def block(self, e, bid, known, acc, nodes):
+        """known = the number of packet bytes the guards around promise"""
+        self.mark(OUT + 8 * bid)
+        if known >= 1:
+            off, tag = known - 1, TAG + bid
+            self.access[bid] = (off, tag)
+            if acc is None:
+                setattr(e, f"pv{off}", tag)
+            else:
+                acc.pB[off] = tag
+        for t in nodes:
+            self.node(e, t, known, acc)
+
+    def node(self, e, t, known, acc):
+        op, G, opt, bid, body, eid, els = t
+        cm = {"gt": lambda: e.packetSize > G, "ge": lambda: e.packetSize >= G,
+              "lt": lambda: e.packetSize < G, "le": lambda: e.packetSize <= G
+              }[op]()
+        long_in_body = op in ("gt", "ge")
+        kb = max(known, G) if long_in_body else known
+        ke = known if long_in_body else max(known, G)
+        if opt == "anon":
+            with cm:
+                self.block(e, bid, kb, acc, body)
+            return
+        with cm as p:
+            self.block(e, bid, kb, p, body)
+        if opt == "else":
+            with p.Else:
+                self.block(e, eid, ke, p, els)
+
+
+def guard_expect(prog, length, min_runs):
+    """the blocks that execute for a packet of this length, in program order:
+    a with-body iff its comparison holds for the length, the Else body iff it
+    does not (min_runs: whether the minimumPacketSize body executes)"""
+    ran = []
+
+    def block(bid, nodes):
+        ran.append(bid)
+        for t in nodes:
+            node(t)
+
+    def node(t):
+        op, G, opt, bid, body, eid, els = t
+        if CMP[op](length, G):
+            block(bid, body)
+        elif eid is not None:
+            block(eid, els)
+
+    if prog.mid is None:
+        for t in prog.top:
+            node(t)
+    elif min_runs:
+        block(prog.mid, prog.top)
+    return ran
+
+
+def run_guard_case(case, seed, res, caseno, kernel_every, only=None):
+    M = case["min"]
+    cj = dict(family="guards", min=M, top=case["top"])
+    try:
+        p = GuardProg(case)
+    except core.Internal:
+        raise
+    except Exception as e:
+        res.count("rejected_by_generator")
+        res.outcomes.add("rejected:" + type(e).__name__)
+        return
+    res.count("programs")
+    res.count("guard_programs")
+    shape = shape_of(case["top"])
+    wanted_kernel = bool(kernel_every) and caseno % kernel_every == 0 \
+        and p.real
+    use_kernel = wanted_kernel and p.load_kernel()
+    if wanted_kernel and not use_kernel:
+        res.count("kernel_rejected")
+    nb = len(p.names)
+
+    def names(ids):
+        return [p.names[i] for i in ids] or ["nothing"]
+
+    def sig(what):
+        return core.digest(["guards", what, shape, M is not None])
+    try:
+        runs = only or [(length, cid) for length in guard_lengths(case)
+                        for cid in GCONTENTS]
+        for length, cid in runs:
+            pkt0 = content(cid, length, seed)
+            pkt = bytearray(pkt0)
+            res.count("evaluations")
+            rj = dict(cj, length=length, content=cid)
+            try:
+                ret, area, steps = p.run_vm(pkt, 0)
+            except bpfvm.Trap as t:
+                res.count("transitions", p.vm.steps)
+                reason = str(t)
+                if use_kernel and length >= 14:
+                    raise core.Internal(
+                        f"interpreter traps ({reason}) on a program the "
+                        f"kernel accepted: {rj}")
+                res.outcomes.add(("guards", "trap", reason.split(":")[0][:40]))
+                violation(res, rj, "program runs to completion", reason, None,
+                          sig("trap " + reason.split(" at ")[0][:30]),
+                          "generated program traps in the interpreter")
+                continue
+            res.count("transitions", steps)
+            if use_kernel and length >= 14:
+                kret, kout, karea = p.run_kernel(pkt0, 0)
+                res.count("kernel_validated")
+                if (kret, bytes(kout), bytes(karea)[OUT:]) != \
+                        (ret, bytes(pkt), area[OUT:]):
+                    raise core.Internal(
+                        f"VM/kernel disagreement on {rj}: vm=({ret}, "
+                        f"{bytes(pkt)[:40].hex()}, {area[OUT:].hex()}) "
+                        f"kernel=({kret}, {bytes(kout)[:40].hex()}, "
+                        f"{bytes(karea)[OUT:].hex()})")
+            slots = struct.unpack_from(f"<{MAXBLOCKS}Q", area, OUT)
+            if any(s not in (0, MARK) for s in slots) or any(slots[nb:]):
+                raise core.Internal(f"unexpected marker slots {slots} in {rj}")
+            got = [i for i in range(nb) if slots[i] == MARK]
+            min_runs = None
+            if M is not None:
+                min_runs = p.mid in got
+                want = True if length > M else False if length < M else None
+                if want is not None and min_runs != want:
+                    violation(
+                        res, rj, f"body {'runs' if want else 'does not run'} "
+                        f"(length {length}, minimumPacketSize {M})",
+                        f"body {'ran' if min_runs else 'did not run'}", None,
+                        sig("min"), "minimumPacketSize guard")
+                    continue
+            exp = guard_expect(p, length, min_runs)
+            res.outcomes.add(("guards", len(exp), got == sorted(exp)))
+            if exp:
+                res.count("judged_runs")
+                res.nontrivial.add((caseno << 4) | CONTENTS.index(cid))
+            if got != sorted(exp):
+                violation(res, rj, f"for length {length} exactly these run: "
+                          + "; ".join(names(exp)),
+                          "ran: " + "; ".join(names(got)), None,
+                          sig("bodies"), "which guarded bodies ran")
+                continue
+            want_pkt = bytearray(pkt0)
+            for bid in exp:
+                if bid in p.access:
+                    off, tag = p.access[bid]
+                    if off >= length:
+                        raise core.Internal(
+                            f"{p.names[bid]} is expected to run on length "
+                            f"{length} but writes byte {off}: {rj}")
+                    want_pkt[off] = tag
+            if bytes(pkt) != bytes(want_pkt):
+                violation(res, rj, bytes(want_pkt[:40]).hex(),
+                          bytes(pkt[:40]).hex(), None, sig("bytes"),
+                          "packet bytes written by the guarded bodies "
+                          "(first 40)")
+            elif ret != 2:
+                violation(res, rj, "return value 2", f"return value {ret}",
+                          None, sig("ret"), "return value")
+    finally:
+        p.close()
+
+
+def forests(n):
+    """all ordered forests with n guards; a tree = (forest in the with-body,
+    forest in the Else body)"""
+    if n == 0:
+        yield []
+        return
+    for k in range(1, n + 1):
+        for t in trees(k):
+            for rest in forests(n - k):
+                yield [t] + rest
+
+
+def trees(k):
+    for nb in range(k):
+        for b in forests(nb):
+            for e in forests(k - 1 - nb):
+                yield (b, e)
+
+
+class _Skip(Exception):
+    pass
+
+
+def fill(forest, it):
+    out = []
+    for body, els in forest:
+        op, G, opt = next(it)
+        if els and opt != "else":
+            raise _Skip
+        out.append([op, G, opt, fill(body, it), fill(els, it)])
+    return out
+
+
+def perms(xs):
+    if len(xs) <= 1:
+        return [tuple(xs)]
+    return [(x,) + r for i, x in enumerate(xs)
+            for r in perms(xs[:i] + xs[i + 1:])]
+
+
+def tuples(alphabet, n):
+    if n == 0:
+        return [()]
+    return [(a,) + r for a in alphabet for r in tuples(alphabet, n - 1)]
+
+
+ALLOPS = ("gt", "ge", "lt", "le")
+
+
+def guard_family(quick):
+    """[(number of guards, guard value tuples, comparison alphabet,
+    minimumPacketSize alphabet)]"""
+    if quick:
+        return [(1, [(16,), (24,)], ALLOPS, [None, GUARD_MIN]),
+                (2, [(16, 24), (24, 16), (16, 16)], ALLOPS,
+                 [None, GUARD_MIN]),
+                (3, [(16, 24, 32)], ("gt", "le"), [None])]
+    return [(1, [(16,), (24,)], ALLOPS, [None, GUARD_MIN]),
+            (2, [(16, 24), (24, 16), (16, 16), (16, 17), (17, 16)], ALLOPS,
+             [None, GUARD_MIN]),
+            (3, perms((16, 24, 32)), ALLOPS, [None]),
+            (3, [(16, 24, 32), (32, 24, 16)], ("gt", "le"), [GUARD_MIN])]
+
+
+def guard_cases(quick):
+    """every program of the multi-guard family, in a fixed order"""
+    out = []
+    for n, gsets, ops, mins in guard_family(quick):
+        for forest in forests(n):
+            for Gs in gsets:
+                for opsel in tuples(ops, n):
+                    for optsel in tuples(GOPTS, n):
+                        try:
+                            top = fill(forest, iter(zip(opsel, Gs, optsel)))
+                        except _Skip:
+                            continue
+                        for M in mins:
+                            out.append(dict(min=M, top=top))
+    return out
+
+
+GUARD_CHUNK = 120
+
+
 def cases_of(item):
     path, G, fmt, quick, seed = item
     for off in offsets(G, fmt, quick, seed):
@@ -620,8 +1010,13 @@ def cases_of(item):
 
 
 def work(item, res):
-    (path, G, fmt, quick, seed, kernel_every), base = item
     _stored.clear()
+    if item[0] == "guards":
+        _, cases, seed, kernel_every, base = item
+        for i, case in enumerate(cases):
+            run_guard_case(case, seed, res, base + i, kernel_every)
+        return
+    (path, G, fmt, quick, seed, kernel_every), base = item
     for i, case in enumerate(cases_of((path, G, fmt, quick, seed))):
         run_case(case, plan_for(case, seed, quick), seed, res, base + i,
                  kernel_every)
@@ -644,6 +1039,12 @@ def run(ctx):
                 n = sum(1 for _ in cases_of(it[:5]))
                 items.append((it, base))
                 base += n
+    single = base
+    gcases = guard_cases(ctx.quick)
+    for i in range(0, len(gcases), GUARD_CHUNK):
+        items.append(("guards", gcases[i:i + GUARD_CHUNK], ctx.seed, ke,
+                      base + i))
+    base += len(gcases)
     res = core.pmap(ctx, work, items, chunk=1)
     res.cov["states"] = len(res.nontrivial)
     res.cov["traces_validated_against_impl"] = res.cov.get("evaluations", 0)
@@ -651,7 +1052,15 @@ def run(ctx):
     res.cov["alphabet"] = dict(
         paths=PATHS, guards=[16, 24], formats=len(formats_for("var")),
         programs_enumerated=base, contents=len(CONTENTS),
-        lengths=len(lengths(16)))
+        lengths=len(lengths(16)), single_access_programs=single,
+        multi_guard_programs=len(gcases),
+        multi_guard_family=[
+            dict(guards=n, guard_values=[list(g) for g in gs], comparisons=list(
+                ops), minimumPacketSize=mins, shapes=sum(1 for _ in forests(n)))
+            for n, gs, ops, mins in guard_family(ctx.quick)],
+        write_constants={f: len(const_values(f, ctx.seed))
+                         for f in ("B", "b", "H", ">h", "I", "<i", "Q", "q",
+                                   ">Q", "!q")})
     res.sample(dict(path="var", guard=16, fmt=">h", off=3,
                     op=["rd", "reg", "r"]))
     res.sample(dict(path="le", guard=24, fmt="I", off=20,
@@ -680,6 +1089,19 @@ def run(ctx):
 def replay(ctx, rep):
     res = core.Result()
     c = rep["case"]
+    if c.get("family") == "guards":
+        case = dict(min=c["min"], top=c["top"])
+        run_guard_case(case, rep.get("seed", ctx.seed), res, 0, 0,
+                       only=[(c["length"], c["content"])])
+        try:
+            p = GuardProg(case)
+            for bid, name in enumerate(p.names):
+                print(f"block {bid}: {name}; marker slot {OUT + 8 * bid}; "
+                      f"writes {p.access.get(bid)}")
+            print(bpfvm.disasm(p.insns))
+        except Exception as e:
+            print("generator:", repr(e))
+        return res.violations
     op = tuple(c["op"])
     case = (c["path"], c["guard"], c["fmt"], c["off"], op)
     run_case(case, [(c["length"], c["content"], c["input"])], rep.get(
